@@ -226,7 +226,7 @@ func structuralOffsets(data []byte) []int {
 func runC02(t *testing.T, tape *sim.Tape, tier string) *Outcome {
 	o := &Outcome{}
 	nvals := 1 + tape.Draw(6, "nvals")
-	big := tape.Draw(4, "big") == 0
+	big := tape.Draw(4, "big") == 3 // 0 stays the cheap choice for minimised tapes
 	var want []resp.Value
 	var data []byte
 	for i := 0; i < nvals; i++ {
